@@ -3,6 +3,7 @@
 #define SIMKIT_MAIN
 #include "../../sim/simkit.hpp"
 
+#include <limits>
 #include <string>
 #include <tuple>
 
@@ -19,6 +20,52 @@ namespace std
     template <> struct hash<vt::TC> { size_t operator()(const vt::TC& t) const { return std::hash<uint64_t>()(t.id) ^ 0x22; } };
     template <> struct hash<vt::TM> { size_t operator()(const vt::TM& t) const { return std::hash<uint64_t>()(t.id) ^ 0x33; } };
     template <> struct hash<vt::TM2> { size_t operator()(const vt::TM2& t) const { return std::hash<uint64_t>()(t.id) ^ 0x44; } };
+}
+
+namespace vt
+{
+    // Lifetime-registered (constructors and destructor report to the registry, constructors pass a fault point) but with
+    // DEFAULTED copy/move assignment: every alternative of variant<int, DA, DB> is trivially copy-assignable while copy
+    // construction and destruction are not trivial.  (Not a sim::Tracked: its relocation tag must not be assigned bytewise.)
+    template <int Tag, bool NothrowMove>
+    struct Reg
+    {
+        static constexpr int tag = Tag;
+        uint64_t id;
+        explicit Reg(uint64_t v) : id(v) { sim::fault_point(sim::FK_THROW); sim::registry().on_construct(this, Tag, id, false); }
+        Reg(const Reg& o) : id(o.id) { sim::registry().use(&o, Tag, "copy construction from"); sim::fault_point(sim::FK_THROW); sim::registry().on_construct(this, Tag, id, false); ++sim::registry().copies; }
+        Reg(Reg&& o) noexcept(NothrowMove) : id(o.id) { sim::registry().use(&o, Tag, "move construction from"); if (!NothrowMove) sim::fault_point(sim::FK_THROW); sim::registry().on_construct(this, Tag, id, false); ++sim::registry().moves; }
+        Reg& operator=(const Reg&) = default;
+        Reg& operator=(Reg&&) = default;
+        ~Reg() { sim::registry().on_destroy(this, Tag); }
+        friend bool operator==(const Reg& a, const Reg& b) { return a.id == b.id; }
+        friend bool operator!=(const Reg& a, const Reg& b) { return a.id != b.id; }
+        friend bool operator<(const Reg& a, const Reg& b) { return a.id < b.id; }
+        friend bool operator>(const Reg& a, const Reg& b) { return a.id > b.id; }
+        friend bool operator<=(const Reg& a, const Reg& b) { return a.id <= b.id; }
+        friend bool operator>=(const Reg& a, const Reg& b) { return a.id >= b.id; }
+    };
+    using DA = Reg<5, true>;
+    using DB = Reg<6, false>;
+    // Trivially destructible, constructors can throw (after having written the member): with int and double it forms a
+    // variant all of whose alternatives are trivially destructible.
+    struct TT
+    {
+        uint64_t id;
+        explicit TT(uint64_t v) : id(v) { sim::fault_point(sim::FK_THROW); }
+        TT(const TT& o) : id(o.id) { sim::fault_point(sim::FK_THROW); }
+        TT(TT&& o) : id(o.id) { sim::fault_point(sim::FK_THROW); }
+        TT& operator=(const TT&) = default;
+        TT& operator=(TT&&) = default;
+        friend bool operator==(const TT& a, const TT& b) { return a.id == b.id; }
+        friend bool operator!=(const TT& a, const TT& b) { return a.id != b.id; }
+        friend bool operator<(const TT& a, const TT& b) { return a.id < b.id; }
+        friend bool operator>(const TT& a, const TT& b) { return a.id > b.id; }
+        friend bool operator<=(const TT& a, const TT& b) { return a.id <= b.id; }
+        friend bool operator>=(const TT& a, const TT& b) { return a.id >= b.id; }
+    };
+    static_assert(std::is_trivially_destructible<TT>::value, "TT must be trivially destructible");
+    static_assert(std::is_trivially_copy_assignable<DA>::value && !std::is_trivially_copy_constructible<DA>::value, "DA: trivial assignment, non-trivial copy");
 }
 
 #include "xtl/xvariant.hpp"
@@ -693,6 +740,350 @@ namespace
         }
     };
 
+    // ---- a generic world over variant<int, X, Y> for further alternative sets ------------------------------------------
+    //  SetDefaulted: X = DA, Y = DB (defaulted assignment, registered lifetimes)
+    //  SetTrivial:   X = double (partially ordered: NaN), Y = TT (all alternatives trivially destructible)
+    struct SetDefaulted
+    {
+        using X = DA; using Y = DB;
+        static constexpr bool tracked = true;
+        static X mkx(uint64_t id) { return X(id); }
+        static uint64_t idx(const X& x) { return x.id; }
+        static const char* xname() { return "DA"; }
+        static const char* yname() { return "DB"; }
+    };
+    struct SetTrivial
+    {
+        using X = double; using Y = TT;
+        static constexpr bool tracked = false;
+        static X mkx(uint64_t id)
+        {
+            const double tab[6] = {0.0, -0.0, 1.5, -3.0, std::numeric_limits<double>::infinity(), std::numeric_limits<double>::quiet_NaN()};
+            return tab[id % 6];
+        }
+        static uint64_t idx(const X& x) { for (uint64_t k = 0; k < 6; ++k) { X t = mkx(k); if (std::memcmp(&t, &x, sizeof(X)) == 0) return k; } return 99; }
+        static const char* xname() { return "double"; }
+        static const char* yname() { return "TT"; }
+    };
+
+    template <class S>
+    struct SmallWorld
+    {
+        using X = typename S::X; using Y = typename S::Y;
+        using SV = xtl::variant<int, X, Y>;
+        Run& run;
+        const Plan& plan;
+        Rng env;
+        Slot<SV> slot[3];
+        MV model[3];
+        std::string tail;
+        uint64_t next_id = 100;
+
+        SmallWorld(Run& r, const Plan& p) : run(r), plan(p), env(stream(p.seed, TAG_ENV))
+        {
+            registry().reset();
+            registry().sigprefix = "C05";
+            tail = "initial/-";
+            for (int i = 0; i < 3; ++i) { slot[i].prepare(env, env.next()); new (slot[i].ptr()) SV(); model[i] = MV(); }
+        }
+        void teardown() { Suspend s; for (int i = 0; i < 3; ++i) { slot[i].get().~SV(); slot[i].unguard(); } }
+        [[noreturn]] void viol(const char* cls, const char* oracle, const std::string& msg) { fail(cls, std::string("C05/") + oracle + "/" + plan.cfg + "/" + tail, msg); }
+        void lifetimes() { try { raise_pending(); } catch (Violation& v) { v.sig += "/" + plan.cfg + "/" + tail; throw; } }
+        uint64_t fresh() { return next_id++; }
+        static const char* alt_name(size_t i) { return i == 0 ? "int" : (i == 1 ? S::xname() : S::yname()); }
+        static std::string name_of(const MV& m) { return m.valueless ? "valueless" : alt_name(m.index); }
+        // ids are reduced so that the double alternative can represent them
+        static uint64_t canon(size_t alt, uint64_t id) { return (alt == 1 && !S::tracked) ? id % 6 : id; }
+
+        struct Scope
+        {
+            std::string qual;
+            StepScope sc;
+            Scope(SmallWorld& w, const Step& st, const char* family, const std::string& variant)
+                : qual(variant + (st.fkind ? ",fault" : "")), sc(w.run, st, qual.c_str())
+            {
+                w.tail = std::string(family) + "/" + variant;
+                uint64_t a = 0;
+                for (int i = 0; i < 3; ++i) a = a * 5 + (w.model[i].valueless ? 4 : w.model[i].index);
+                w.run.abstract(mix(strhash(w.plan.cfg.c_str()) ^ strhash(family), strhash(variant.c_str()), a * 2 + (st.fkind ? 1 : 0)));
+                w.run.dig(strhash(family) ^ strhash(variant.c_str()));
+            }
+        };
+
+        MV observe(const SV& v)
+        {
+            MV m;
+            m.valueless = v.valueless_by_exception();
+            if (m.valueless) { m.index = xtl::variant_npos; return m; }
+            m.index = v.index();
+            if (m.index == 0) m.id = static_cast<uint64_t>(xtl::get<0>(v));
+            else if (m.index == 1) m.id = S::idx(xtl::get<1>(v));
+            else if (m.index == 2) m.id = xtl::get<2>(v).id;
+            else viol("invariant", "index", "index() out of range: " + std::to_string(m.index));
+            return m;
+        }
+        struct Vis
+        {
+            std::pair<size_t, uint64_t> operator()(const int& x) const { return {0, static_cast<uint64_t>(x)}; }
+            std::pair<size_t, uint64_t> operator()(const X& x) const { return {1, S::idx(x)}; }
+            std::pair<size_t, uint64_t> operator()(const Y& x) const { return {2, x.id}; }
+        };
+        template <size_t I, class T> void check_alt(const SV& v, const MV& m, const std::string& who)
+        {
+            bool live = !m.valueless && m.index == I;
+            if (xtl::holds_alternative<T>(v) != live) viol("invariant", "holds_alternative", who + "holds_alternative disagrees for alternative " + std::to_string(I));
+            if ((xtl::get_if<I>(&v) != nullptr) != live || (xtl::get_if<T>(&v) != nullptr) != live) viol("invariant", "get_if", who + "get_if disagrees for alternative " + std::to_string(I));
+            bool threw = false;
+            try { (void)xtl::get<I>(v); } catch (const xtl::bad_variant_access&) { threw = true; }
+            if (threw == live) viol("invariant", "get", who + "get<I> " + (threw ? "threw for the live" : "did not throw for a dead") + " alternative " + std::to_string(I));
+        }
+        void check_slot(int i)
+        {
+            Suspend s;
+            const SV& v = slot[i].get();
+            const MV& m = model[i];
+            std::string who = "variant " + std::to_string(i) + ": ";
+            if (!slot[i].canaries_ok()) viol("containment", "canary", who + "memory around the variant was overwritten");
+            MV o = observe(v);
+            if (o.valueless != m.valueless) viol("invariant", "state", who + "is " + show(o) + ", expected " + show(m));
+            if (!m.valueless && (o.index != m.index || o.id != m.id)) viol("invariant", "state", who + "holds " + show(o) + ", expected " + show(m));
+            if (m.valueless && v.index() != xtl::variant_npos) viol("invariant", "index", who + "valueless but index() != variant_npos");
+            check_alt<0, int>(v, m, who); check_alt<1, X>(v, m, who); check_alt<2, Y>(v, m, who);
+            if (!m.valueless)
+            {
+                if (S::tracked)
+                {
+                    const void* p = m.index == 1 ? static_cast<const void*>(xtl::get_if<1>(&v)) : (m.index == 2 ? static_cast<const void*>(xtl::get_if<2>(&v)) : nullptr);
+                    if (p && !registry().is_live(p, m.index == 1 ? 5 : 6)) viol("lifetime", "contained-not-live", who + "the contained object is not a live object");
+                }
+                std::pair<size_t, uint64_t> r = xtl::visit(Vis(), v);
+                if (r.first != m.index || r.second != m.id) viol("invariant", "visit", who + "visit reaches alternative " + std::to_string(r.first));
+            }
+            run.dig(m.valueless ? 99 : m.index); run.dig(m.id);
+        }
+        void check_all()
+        {
+            lifetimes();
+            for (int i = 0; i < 3; ++i) check_slot(i);
+            if (S::tracked)
+            {
+                size_t expect = 0;
+                for (int i = 0; i < 3; ++i) if (!model[i].valueless && model[i].index >= 1) ++expect;
+                if (registry().live.size() != expect)
+                    viol("lifetime", "population", std::to_string(registry().live.size()) + " registered objects are live, " + std::to_string(expect) + " are held by the variants (leak, lost object, or an alternative that was never constructed/destroyed)");
+            }
+        }
+        void settle_after_throw(int i, const MV& pre, const MV* requested)
+        {
+            Suspend s;
+            MV o = observe(slot[i].get());
+            bool ok = o.valueless || o.same_value(pre) || (requested && o.same_value(*requested));
+            if (!ok) viol("model", "after-throw", "variant " + std::to_string(i) + " is " + show(o) + " after a failed call; before it was " + show(pre) + (requested ? ", requested " + show(*requested) : ""));
+            if (o.valueless) SIM_PROBE("valueless_reached");
+            model[i] = o;
+        }
+        void settle_source(int i, const MV& pre)
+        {
+            Suspend s;
+            MV o = observe(slot[i].get());
+            if (!o.same_value(pre)) viol("model", "source-changed", "source variant " + std::to_string(i) + " is " + show(o) + ", was " + show(pre));
+            model[i] = o;
+        }
+        template <class F> void with_alt(size_t idx, F f)
+        {
+            switch (idx % 3)
+            {
+            case 0: f(std::integral_constant<size_t, 0>()); break;
+            case 1: f(std::integral_constant<size_t, 1>()); break;
+            default: f(std::integral_constant<size_t, 2>()); break;
+            }
+        }
+        static int mk(std::integral_constant<size_t, 0>, uint64_t id) { return static_cast<int>(id); }
+        static X mk(std::integral_constant<size_t, 1>, uint64_t id) { return S::mkx(id); }
+        static Y mk(std::integral_constant<size_t, 2>, uint64_t id) { return Y(id); }
+        template <class I> static auto quiet(I i, uint64_t id) { Suspend s; return mk(i, id); }
+
+        void op_construct(const Step& st)
+        {
+            int t = st.actor % 3;
+            static const char* const vn[] = {"default", "in_place_index", "converting_lvalue", "converting_rvalue", "copy", "move"};
+            unsigned v = static_cast<unsigned>(st.d % 6);
+            size_t alt = static_cast<size_t>(st.a % 3);
+            int src = (t + 1 + static_cast<int>(st.c % 2)) % 3;
+            std::string var = std::string(vn[v]) + ((v >= 1 && v <= 3) ? std::string("_") + alt_name(alt) : (v >= 4 ? "_from_" + name_of(model[src]) : std::string()));
+            Scope sc(*this, st, "construct", var);
+            uint64_t id = canon(alt, fresh());
+            MV pre_src = model[src];
+            MV want; want.index = alt; want.id = id;
+            { Suspend s; slot[t].get().~SV(); }
+            slot[t].prepare(env, env.next());
+            SV* p = slot[t].ptr();
+            bool threw = false;
+            try
+            {
+                switch (v)
+                {
+                case 0: new (p) SV(); want = MV(); break;
+                case 1: with_alt(alt, [&](auto I) { auto val = quiet(I, id); new (p) SV(mpark::in_place_index_t<decltype(I)::value>{}, val); }); break;
+                case 2: with_alt(alt, [&](auto I) { auto val = quiet(I, id); new (p) SV(val); }); break;
+                case 3: with_alt(alt, [&](auto I) { auto val = quiet(I, id); new (p) SV(std::move(val)); }); break;
+                case 4: new (p) SV(static_cast<const SV&>(slot[src].get())); want = pre_src; break;
+                default: new (p) SV(std::move(slot[src].get())); want = pre_src; break;
+                }
+            }
+            catch (const Injected&) { threw = true; }
+            if (threw) { Suspend s; new (p) SV(); model[t] = MV(); SIM_PROBE("constructor_threw"); }
+            else model[t] = want;
+            if (v >= 4) settle_source(src, pre_src);
+            ++run.changing;
+            check_all();
+        }
+        void op_assign(const Step& st, bool move)
+        {
+            int t = st.actor % 3;
+            int src = static_cast<int>(st.c % 3);
+            std::string var = name_of(model[t]) + "_from_" + (src == t ? std::string("self") : name_of(model[src]));
+            Scope sc(*this, st, move ? "move_assign" : "copy_assign", var);
+            MV pre = model[t], pre_src = model[src];
+            bool threw = false;
+            try
+            {
+                if (move) slot[t].get() = std::move(slot[src].get());
+                else slot[t].get() = static_cast<const SV&>(slot[src].get());
+            }
+            catch (const Injected&) { threw = true; }
+            if (threw) { settle_after_throw(t, pre, &pre_src); if (src != t) settle_source(src, pre_src); if (model[t].valueless) SIM_PROBE("valueless_by_assignment"); }
+            else { if (src != t) { model[t] = pre_src; settle_source(src, pre_src); } }
+            if (!pre.valueless && !pre_src.valueless && pre.index != pre_src.index && src != t) SIM_PROBE("assignment_switching_alternative_defaulted_or_trivial_set");
+            ++run.changing;
+            check_all();
+        }
+        void op_conv_assign(const Step& st)
+        {
+            int t = st.actor % 3;
+            size_t alt = static_cast<size_t>(st.a % 3);
+            bool rvalue = st.b & 1;
+            Scope sc(*this, st, "conv_assign", name_of(model[t]) + "_from_" + alt_name(alt) + (rvalue ? "_rvalue" : "_lvalue"));
+            MV pre = model[t];
+            uint64_t id = canon(alt, fresh());
+            MV want; want.index = alt; want.id = id;
+            bool threw = false;
+            with_alt(alt, [&](auto I) {
+                auto val = quiet(I, id);
+                try { if (rvalue) slot[t].get() = std::move(val); else slot[t].get() = val; }
+                catch (const Injected&) { threw = true; }
+            });
+            if (threw) { settle_after_throw(t, pre, &want); if (model[t].valueless) SIM_PROBE("valueless_by_assignment"); }
+            else model[t] = want;
+            ++run.changing;
+            check_all();
+        }
+        void op_emplace(const Step& st)
+        {
+            int t = st.actor % 3;
+            size_t alt = static_cast<size_t>(st.a % 3);
+            Scope sc(*this, st, "emplace_index", name_of(model[t]) + "_to_" + alt_name(alt));
+            MV pre = model[t];
+            uint64_t id = canon(alt, fresh());
+            MV want; want.index = alt; want.id = id;
+            bool threw = false;
+            with_alt(alt, [&](auto I) {
+                auto val = quiet(I, id);
+                try { slot[t].get().template emplace<decltype(I)::value>(val); }
+                catch (const Injected&) { threw = true; }
+            });
+            if (threw) { settle_after_throw(t, pre, &want); if (model[t].valueless) SIM_PROBE("valueless_by_emplace"); }
+            else model[t] = want;
+            ++run.changing;
+            check_all();
+        }
+        void op_swap(const Step& st)
+        {
+            int t = st.actor % 3;
+            int p = static_cast<int>(st.c % 3);
+            Scope sc(*this, st, "swap", p == t ? std::string("self") : name_of(model[t]) + "_" + name_of(model[p]));
+            MV a = model[t], b = model[p];
+            bool threw = false;
+            try { slot[t].get().swap(slot[p].get()); }
+            catch (const Injected&) { threw = true; }
+            if (threw)
+            {
+                Suspend s;
+                SIM_PROBE("swap_threw");
+                MV oa = observe(slot[t].get()), ob = observe(slot[p].get());
+                auto ok = [&](const MV& o) { return o.valueless || o.same_value(a) || o.same_value(b); };
+                if (!ok(oa) || !ok(ob)) viol("model", "after-throw", "after a failed swap the operands are " + show(oa) + " and " + show(ob) + "; they were " + show(a) + " and " + show(b));
+                model[t] = oa; model[p] = ob;
+            }
+            else if (p != t) { model[t] = b; model[p] = a; if (a.valueless || b.valueless) SIM_PROBE("swap_with_valueless"); }
+            ++run.changing;
+            check_all();
+        }
+        template <class T> static bool rel(unsigned o, const T& a, const T& b)
+        {
+            switch (o) { case 0: return a == b; case 1: return a != b; case 2: return a < b; case 3: return a > b; case 4: return a <= b; default: return a >= b; }
+        }
+        bool model_rel(unsigned o, const MV& l, const MV& r)
+        {
+            if (!l.valueless && !r.valueless && l.index == r.index)
+            {
+                // same alternative: exactly the contained values' own operator (which need not be a total order)
+                if (l.index == 0) return rel(o, static_cast<int>(l.id), static_cast<int>(r.id));
+                if (l.index == 1) { X a = S::mkx(l.id), b = S::mkx(r.id); return rel(o, a, b); }
+                Y a(l.id), b(r.id); return rel(o, a, b);
+            }
+            switch (o)
+            {
+            case 0: return l.valueless && r.valueless;
+            case 1: return !(l.valueless && r.valueless);
+            case 2: if (r.valueless) return false; if (l.valueless) return true; return l.index < r.index;
+            case 3: if (l.valueless) return false; if (r.valueless) return true; return l.index > r.index;
+            case 4: if (l.valueless) return true; if (r.valueless) return false; return l.index < r.index;
+            default: if (r.valueless) return true; if (l.valueless) return false; return l.index > r.index;
+            }
+        }
+        void op_relop(const Step& st)
+        {
+            int t = st.actor % 3;
+            int p = static_cast<int>(st.c % 3);
+            static const char* const on[] = {"eq", "ne", "lt", "gt", "le", "ge"};
+            unsigned o = static_cast<unsigned>(st.d % 6);
+            Scope sc(*this, st, "relop", std::string(on[o]) + "_" + name_of(model[t]) + "_" + name_of(model[p]));
+            Suspend s;
+            const SV& a = slot[t].get(); const SV& b = slot[p].get();
+            bool got = rel(o, a, b);
+            bool want = model_rel(o, model[t], model[p]);
+            if (got != want) viol("model", "ret", std::string("operator ") + on[o] + " on " + show(model[t]) + " and " + show(model[p]) + " returned " + (got ? "true" : "false"));
+            if (!S::tracked && !model[t].valueless && !model[p].valueless && model[t].index == 1 && model[p].index == 1 && (model[t].id == 5 || model[p].id == 5)) SIM_PROBE("unordered_values_compared");
+            run.dig(static_cast<uint64_t>(got));
+            check_all();
+        }
+        void step(const Step& st)
+        {
+            switch (st.op)
+            {
+            case OP_construct: op_construct(st); break;
+            case OP_copy_assign: op_assign(st, false); break;
+            case OP_move_assign: op_assign(st, true); break;
+            case OP_conv_assign: op_conv_assign(st); break;
+            case OP_emplace_index: case OP_emplace_type: op_emplace(st); break;
+            case OP_swap: op_swap(st); break;
+            case OP_relop: op_relop(st); break;
+            default: { Scope sc(*this, st, "read", "all"); check_all(); } break;
+            }
+        }
+        void run_all()
+        {
+            check_all();
+            for (const Step& st : plan.steps) step(st);
+            tail = "teardown/-";
+            teardown();
+            lifetimes();
+            if (!registry().live.empty()) viol("lifetime", "leak", std::to_string(registry().live.size()) + " contained objects were never destroyed");
+            if (registry().constructed != registry().destroyed) viol("lifetime", "balance", "constructions and destructions do not balance");
+        }
+    };
+
     void gen(Plan& plan, Rng& cfg, Rng& pr, int)
     {
         size_t n = 1;
@@ -729,5 +1120,14 @@ namespace
         catch (...) { Suspend s; clear_pending(); try { w->teardown(); } catch (...) {} clear_pending(); throw; }
     }
 
-    RegisterCfg reg("int_NC_TC_TM_TM2_string", gen, exec, 1, false);
+    template <class W> void exec_small(const Plan& plan, Run& run)
+    {
+        std::unique_ptr<W> w(new W(run, plan));
+        try { w->run_all(); }
+        catch (...) { Suspend s; clear_pending(); try { w->teardown(); } catch (...) {} clear_pending(); throw; }
+    }
+
+    RegisterCfg reg("int_NC_TC_TM_TM2_string", gen, exec, 6, false);
+    RegisterCfg reg_b("int_DA_DB_defaulted_assignment", gen, exec_small<SmallWorld<SetDefaulted>>, 1, false);
+    RegisterCfg reg_c("int_double_TT_trivially_destructible", gen, exec_small<SmallWorld<SetTrivial>>, 1, false);
 }
